@@ -35,7 +35,7 @@ def _alarm(signum, frame):
     raise Timeout()
 
 
-def guarded(f, *a, secs=20, **k):
+def guarded(f, *a, secs=8, **k):
     """run an implementation call: stdout swallowed, exceptions and hangs become observations"""
     old = signal.signal(signal.SIGALRM, _alarm)
     signal.alarm(secs)
@@ -131,7 +131,7 @@ def brute_census(E, n):
 def check_tables(ctx, drv, n):
     from hypergraphx.motifs import utils
     case = {"kind": "tables", "n": n}
-    st, res = guarded(utils.generate_motifs, n, secs=60)
+    st, res = guarded(utils.generate_motifs, n, secs=25)
     if st != "ok":
         ctx.violation(case, f"generate_motifs({n}) failed: {res}")
         return None
@@ -179,11 +179,17 @@ def check_tables(ctx, drv, n):
     if not zero:
         ctx.violation(case, f"generate_motifs({n}) returns non-zero initial counts")
     ic = []
+    bad_calls = 0
     for m in range(1 << len(A)):
         es = [A[i] for i in range(len(A)) if m >> i & 1]
-        st2, r2 = guarded(utils._is_connected, es, n, secs=5)
+        st2, r2 = guarded(utils._is_connected, es, n, secs=3)
         if st2 == "ok" and r2:
             ic.append(m)
+        elif st2 != "ok":
+            bad_calls += 1
+            if bad_calls >= 3:
+                ctx.violation(case, f"_is_connected raises / hangs on labelled patterns: {r2}")
+                break
     ctx.case(("tables", n), True, sample=case)
     ctx.count(f"table_entries_n{n}", len(labkeys) + len(cls))
     if drv is not None:
@@ -264,7 +270,7 @@ def build(edges):
     return h
 
 
-def observed(h, n, secs=30):
+def observed(h, n, secs=8):
     from hypergraphx.motifs.motifs import compute_motifs
     st, res = guarded(compute_motifs, h, n, runs_config_model=0, secs=secs)
     if st != "ok":
@@ -337,6 +343,8 @@ def check_hg(ctx, drv, labels, edges, n, perm_seed, passes=True):
     if st2 != "ok" or obs2 != obs:
         ctx.violation({**case, "relabel": pi}, f"order-{n} census changes under the relabelling {pi}: "
                       + (obs2 if st2 != "ok" else str(sorted(set(nz(obs).items()) ^ set(nz(obs2).items()))[:4])))
+        if st2 != "ok":
+            return
     for j in range(5):
         es = [tuple(r.sample(e, len(e))) for e in edges]
         r.shuffle(es)
@@ -437,7 +445,7 @@ def dcanon_key(n, pat):
     return best
 
 
-def dobserved(h, n, secs=30):
+def dobserved(h, n, secs=8):
     from hypergraphx.motifs.directed_motifs import compute_directed_motifs
     st, res = guarded(compute_directed_motifs, h, n, runs_config_model=0, secs=secs)
     if st != "ok":
@@ -561,8 +569,8 @@ def run(ctx):
     for n in (3, 4):
         check_tables(ctx, drv, n)
     rng = ctx.rng
-    n_u = ctx.scale(40, 1500)
-    n_d = ctx.scale(30, 1200)
+    n_u = ctx.scale(55, 1500)
+    n_d = ctx.scale(40, 1200)
     raw4 = ctx.scale(2, 40)      # order-4 cases run without the memo
     for i in range(n_u):
         labels, edges = gen_hg(rng)
